@@ -108,13 +108,13 @@ PROPS.update({
     },
     "C06": {
         "thm_modules": ["Rq.Thm.C06", "Rq.Thm.C06b", "Rq.Thm.C06c", "Rq.Thm.Tables"],
-        "engines": [("inter", "release"), ("plan", "release"), ("plan", "debug"), ("tables", "release"), ("solver", "release"), ("object", "release"), ("linear", "release")],
+        "engines": [("inter", "release"), ("plan", "release"), ("plan", "debug"), ("tables", "release"), ("solver", "release"), ("object", "release"), ("linear", "release"), ("cm", "release")],
         "modelled": [SOLVER],
         "assumptions": [INVERT, "plan certificates (identity-block replay) are evaluated by the compiled model driver for K <= 130 (quick) / 400 (thorough): compiled Lean evaluation, not a kernel proof; all 477 K' are covered by checking Rust's intermediate symbols against every row of the Spec system"],
     },
     "C03": {
         "thm_modules": ["Rq.Thm.C02"],
-        "engines": [("overhead", "release"), ("solver", "release")],
+        "engines": [("overhead", "release"), ("solver", "release"), ("decobj", "release")],
         "level": "other",
         "explanation": "What is proved: the decoder fails exactly when the RFC 6330 constraint matrix of the received set is rank deficient (C02.attempt_iff, few_rows_not_determined), so its failure probability over random (K+h)-subsets equals that of the RFC code. What is not provable: the numerical bounds (below 1 percent, 0.01 percent, 0.001 percent), an empirical property of the code design; supported by a seeded Monte-Carlo run in which every failure is certified singular by the oracle, with an exact Clopper-Pearson lower bound at confidence 1-1e-9 as the only alarm.",
         "modelled": [SOLVER],
